@@ -94,7 +94,7 @@ def declTail (n : Nat) (tmpl : Option Template) : P Decl := do
     P.expect (.lit ";")
     pure (.func tmpl (toRet r) name args)
   else
-    if tmpl.isSome then P.failParse
+    if tmpl.isSome || name == "operator" then P.failParse
     else
       let d ← optDefault
       P.expect (.lit ";")
